@@ -1021,6 +1021,8 @@ class Linear:
 
 def _short(t):
     if isinstance(t, tuple):
+        if not t:
+            return '()'
         if t[0] in ('name',):
             return t[1]
         if t[0] == 'param':
